@@ -22,7 +22,7 @@ RULE = ("three families of histories. oto: up to 3 OneToOne instances built from
         "kwargs/non-dict mapping, .unique, .fromkeys), copied (.copy(), OneToOne(x), copy.copy), mutated through either side by "
         "[]=, del, pop, popitem, clear, setdefault, update, |=, update-from-another-instance, in 30 % of the histories also "
         "with unhashable operands (TypeError, nothing written); tokens rendered as equal-but-not-identical objects in "
-        "rotation; every instance's "
+        "rotation, instances of trivial user subclasses mixed in; every instance's "
         "list(items()), list(inv.items()) and inv.inv identity observed after EVERY step. m2m: same for ManyToMany "
         "(add/remove/[]=/del/replace/update/update(other)/ManyToMany(other)/==) with canonical sorted views read "
         "alternately through keys()+[] and keys()+iteritems(). fd: a FrozenDict, every mutator, hash (repeated), "
@@ -107,6 +107,31 @@ def tok(o):
         assert len(o) == 1
         return 900 + o[0]
     return _INV[o]
+
+
+# --------------------------------------------------------------------------
+# user subclasses (the statement speaks of the types, not of exact classes): the model identifies an
+# instance of a subclass with an instance of the base class holding the same items, so == / hash / copies /
+# updated() / fromkeys / pickle must not depend on the concrete class
+# --------------------------------------------------------------------------
+_CLS = {}
+
+
+def classes():
+    """-> dict of the three base classes and a trivial subclass of each (module-level names, so pickle finds them)"""
+    if not _CLS:
+        from boltons.dictutils import OneToOne, ManyToMany, FrozenDict
+        g = globals()
+        for base, name in ((OneToOne, "SubOneToOne"), (ManyToMany, "SubManyToMany"), (FrozenDict, "SubFrozenDict")):
+            sub = type(name, (base,), {"__module__": __name__, "__slots__": ()} if base is not ManyToMany
+                       else {"__module__": __name__})
+            g[name] = sub
+            _CLS[base.__name__] = (base, sub)
+    return _CLS
+
+
+def pick_cls(basename, sub):
+    return classes()[basename][1 if sub else 0]
 
 
 # --------------------------------------------------------------------------
@@ -258,7 +283,9 @@ def gen_oto(rng, tier):
         toks[0] = NONE_TOK
     ops = []
     p = _pairs(rng, toks, 0, 4)
-    ops.append(["new", rng.random() < 0.15 and _creates(p), _pick_form(rng, OTO_FORMS, p), p])
+    def CL():
+        return ["sub"] if rng.random() < 0.3 else []
+    ops.append(["new", rng.random() < 0.15 and _creates(p), _pick_form(rng, OTO_FORMS, p), p] + CL())
     ninst = 1
     nops = rng.randint(2, 14 if tier == "quick" else 30)
     # three in ten histories also hand unhashable objects (lists) to the operations: TypeError, nothing written
@@ -276,18 +303,18 @@ def gen_oto(rng, tier):
         if r < 0.06 and ninst < 3:
             p = Up(_pairs(rng, toks, 0, 4))
             uniq = rng.random() < 0.3
-            ops.append(["new", uniq, _pick_form(rng, OTO_FORMS, p), p])
+            ops.append(["new", uniq, _pick_form(rng, OTO_FORMS, p), p] + CL())
             if not _new_rejects(p) and (not uniq or _creates(p)):     # a constructor that raises creates nothing
                 ninst += 1
         elif r < 0.13 and ninst < 3:
-            ops.append(["copy", rng.choice(["copy", "ctor", "copycopy", "deepcopy"]), i, s])
+            ops.append(["copy", rng.choice(["copy", "ctor", "ctor_other", "copycopy", "deepcopy"]), i, s])
             ninst += 1
         elif r < 0.16 and ninst < 3:
             keys = [U(rng.choice(toks)) for _ in range(rng.randint(0, 4))]
             if len(keys) >= 2 and rng.random() < 0.4:
                 keys.append(keys[0])          # a repeated key: the LAST write decides who keeps the value
             v = U(rng.choice(toks))
-            ops.append(["fromkeys", keys, v, rng.choice(["list", "tuple", "iter", "gen"])])
+            ops.append(["fromkeys", keys, v, rng.choice(["list", "tuple", "iter", "gen"])] + CL())
             if not (keys and (_unh(keys) or _unh(v))):
                 ninst += 1
         elif r < 0.24 and ninst >= 1:
@@ -351,7 +378,7 @@ def gen_m2m(rng, tier):
                 ops.append(["op", i, s, name, p, _pick_form(rng, M2M_PAIR_FORMS, p)])
             else:
                 ops.append(["op", i, s, name, k])
-    return {"kind": "m2m", "ops": ops}
+    return {"kind": "m2m", "ops": ops, "sub": rng.random() < 0.3}
 
 
 FD_FORMS = ["dict", "pairs", "tuple", "gen", "iter", "kwargs", "dict+kw"]
@@ -389,7 +416,7 @@ def gen_fd(rng, tier):
         elif name in ("delitem", "pop", "get"):
             ops.append([name, k])
         elif name == "clone":
-            ops.append([name, rng.choice(["pickle0", "pickle2", "pickle5", "deepcopy", "dictcopy", "ctor"])])
+            ops.append([name, rng.choice(["pickle0", "pickle2", "pickle5", "deepcopy", "dictcopy", "ctor", "ctor_other"])])
         else:
             ops.append([name])
     ops.insert(rng.randint(0, len(ops)), ["hash"])
@@ -417,7 +444,8 @@ def gen_fd(rng, tier):
         rng.shuffle(items)
     else:
         ctor = _pick_form(rng, FD_FORMS, kvs)
-    return {"kind": "fd", "kvs": kvs, "ctor": ctor, "ops": ops,
+    return {"kind": "fd", "cls": rng.choice(["base", "base", "sub"]), "cls2": rng.choice(["base", "base", "sub"]),
+            "kvs": kvs, "ctor": ctor, "ops": ops,
             "kvs2": items, "ctor2": _pick_form(rng, FD_FORMS, items)}
 
 
@@ -505,29 +533,35 @@ def run_oto(case):
                 a, kw, cleanup = make_arg(op[2], op[3])
                 if op[2] == "kwargs":
                     a = ()
-                o = OneToOne.unique(*a, **kw) if op[1] else OneToOne(*a, **kw)
+                C = pick_cls("OneToOne", len(op) > 4 and op[4] == "sub")
+                o = C.unique(*a, **kw) if op[1] else C(*a, **kw)
                 cleanup()
+                assert type(o) is C and type(o.inv) is C
                 insts.append(o)
             elif op[0] == "fromkeys":
                 ks = [obj(k) for k in op[1]]
                 arg = {"list": list, "tuple": tuple, "iter": iter, "gen": lambda l: (k for k in l)}[op[3]](ks)
+                C = pick_cls("OneToOne", len(op) > 4 and op[4] == "sub")
                 if op[2] == NONE_TOK and len(op[1]) % 2:
-                    o = OneToOne.fromkeys(arg)
+                    o = C.fromkeys(arg)
                 else:
-                    o = OneToOne.fromkeys(arg, obj(op[2]))
-                assert type(o) is OneToOne
+                    o = C.fromkeys(arg, obj(op[2]))
+                assert type(o) is C and type(o.inv) is C
                 insts.append(o)
             elif op[0] == "copy":
                 x = insts[op[2]].inv if op[3] else insts[op[2]]
                 if op[1] == "copy":
                     c = x.copy()
                 elif op[1] == "ctor":
-                    c = OneToOne(x)
+                    c = type(x)(x)
+                elif op[1] == "ctor_other":          # the other class (base <-> subclass) built from x
+                    base, sub = classes()["OneToOne"]
+                    c = (base if type(x) is sub else sub)(x)
                 elif op[1] == "deepcopy":
                     c = _copy.deepcopy(x)
                 else:
                     c = _copy.copy(x)
-                assert type(c) is OneToOne
+                assert (type(c) is not type(x)) == (op[1] == "ctor_other") and type(c.inv) is type(c)
                 insts.append(c)
             elif op[0] == "eq":
                 x = insts[op[1]].inv if op[2] else insts[op[1]]
@@ -634,24 +668,26 @@ def run_m2m(case):
         res = _res_ok(["none"])
         try:
             if op[0] == "new":
+                M = pick_cls("ManyToMany", bool(case.get("sub")))     # one class per history, see notes
                 if op[1] == "none":
-                    m = ManyToMany() if not op[2] else ManyToMany([(obj(k), obj(v)) for k, v in op[2]])
+                    m = M() if not op[2] else M([(obj(k), obj(v)) for k, v in op[2]])
                 else:
                     a, kw, cleanup = make_arg(op[1], op[2])
-                    m = ManyToMany(a[0])
+                    m = M(a[0])
                     cleanup()
+                assert type(m.inv) is M
                 insts.append(m)
             elif op[0] == "newfrom":
                 x = insts[op[1]].inv if op[2] else insts[op[1]]
                 how = op[3] if len(op) > 3 else "ctor"
                 if how == "ctor":
-                    c = ManyToMany(x)
+                    c = type(x)(x)
                 elif how == "deepcopy":
                     c = _copy.deepcopy(x)
                 else:
                     import pickle
                     c = pickle.loads(pickle.dumps(x, int(how[6:])))
-                assert type(c) is ManyToMany and c is not x and c.inv is not x.inv
+                assert type(c) is type(x) and type(c.inv) is type(x) and c is not x and c.inv is not x.inv
                 insts.append(c)
             elif op[0] == "updfrom":
                 x = insts[op[1]].inv if op[2] else insts[op[1]]
@@ -704,17 +740,18 @@ def _exn_name(e):
     return type(e).__name__
 
 
-def _fd_new(form, pairs):
-    from boltons.dictutils import FrozenDict
+def _fd_new(form, pairs, sub=False):
+    F = pick_cls("FrozenDict", sub)
     if form == "fromkeys":          # all values are the same token (or there are no pairs)
-        f = FrozenDict.fromkeys(iter([obj(k) for k, _ in pairs]), *([obj(pairs[0][1])] if pairs else []))
-        assert type(f) is FrozenDict
+        f = F.fromkeys(iter([obj(k) for k, _ in pairs]), *([obj(pairs[0][1])] if pairs else []))
+        assert type(f) is F
         return f
     a, kw, cleanup = make_arg(form, pairs)
     if form == "kwargs":
         a = ()
-    f = FrozenDict(*a, **kw)
+    f = F(*a, **kw)
     cleanup()
+    assert type(f) is F
     return f
 
 
@@ -722,7 +759,7 @@ def run_fd(case):
     import pickle
     import operator
     from boltons.dictutils import FrozenDict, FrozenHashError
-    fd = _fd_new(case["ctor"], case["kvs"])
+    fd = _fd_new(case["ctor"], case["kvs"], case.get("cls") == "sub")
 
     def items(d):
         return [[tok(k), tok(v)] for k, v in list(d.items())]
@@ -736,7 +773,7 @@ def run_fd(case):
 
     def new_res(r):
         # hash() of the returned object is taken only when it is a FrozenDict (dict.copy gives a plain dict)
-        h = hash_res(r) if type(r) is FrozenDict else ["na"]
+        h = hash_res(r) if isinstance(r, FrozenDict) else ["na"]
         returned.append(r)
         return ["ok", ["new", items(r), bool(r is fd), bool(r == fd and fd == r and not (r != fd)), h]]
     obs = []
@@ -781,7 +818,7 @@ def run_fd(case):
                     a = ()
                 r = fd.updated(*a, **kw)
                 cleanup()
-                assert type(r) is FrozenDict
+                assert type(r) is type(fd)
                 res = new_res(r)
             elif name == "copy":
                 res = new_res(_copy.copy(fd))
@@ -789,14 +826,18 @@ def run_fd(case):
                 how = op[1]
                 if how.startswith("pickle"):
                     r = pickle.loads(pickle.dumps(fd, int(how[6:])))
-                    assert type(r) is FrozenDict
+                    assert type(r) is type(fd)
                 elif how == "deepcopy":
                     r = _copy.deepcopy(fd)
-                    assert type(r) is FrozenDict
+                    assert type(r) is type(fd)
                 elif how == "dictcopy":
                     r = fd.copy()
+                elif how == "ctor_other":            # the other class (FrozenDict <-> subclass) with the same items
+                    base, sub = classes()["FrozenDict"]
+                    r = (base if type(fd) is sub else sub)(fd)
+                    assert type(r) is not type(fd)
                 else:
-                    r = FrozenDict(fd)
+                    r = type(fd)(fd)
                 res = new_res(r)
             else:
                 raise ValueError(name)
@@ -805,7 +846,7 @@ def run_fd(case):
         except TypeError as e:
             res = ["raise", _exn_name(e)]
         obs.append([res, items(fd)])
-    fd2 = _fd_new(case["ctor2"], case["kvs2"])
+    fd2 = _fd_new(case["ctor2"], case["kvs2"], case.get("cls2") == "sub")
     ihs = []
     seen = set()
     for d in [fd, fd2] + returned:      # oracle: hash of every (key, value) tuple any hashed object holds
